@@ -259,7 +259,7 @@ def main():
             "guard": "verif",
             "enable": "go test -overlay <generated> -tags verif (harness files are injected from /verif/harness by "
                       "overlay; /repo itself carries no verification code unless listed in source_commits)",
-            "baseline_off_cmd": "cd /repo && go test -mod=mod -vet=off -count=1 -timeout 25m ./...",
+            "baseline_off_cmd": "cd /repo && go test -mod=mod -vet=off -count=1 -timeout 25m $(GOFLAGS=-mod=mod go list ./... | grep -v '^github.com/yandex/mysync/tests$')",
             "source_commits": ["5303d2be68cacc02a7486c9c49550aaa10f52acf"],
             "add_only": True,
         },
